@@ -370,7 +370,13 @@ class CFG:
         starts = [e.dst for e in edges]
         return self.reachable(starts, cut_nodes, cut_edges)
 
-    def precise_reach(self, edges, cut_nodes=(), cut_edges=()):
+    def reach_assuming(self, assume):
+        """Blocks reachable from the entry when the given locals hold the given enum variants ({local: (adt, index)}),
+        e.g. a function specialised on one variant of an enum parameter."""
+        e0 = Edge(-1, self.entry, "entry")
+        return self.precise_reach([e0], _init={self.entry: dict(assume)})
+
+    def precise_reach(self, edges, cut_nodes=(), cut_edges=(), _init=None):
         """Blocks reachable when starting by taking `edges`, following only paths that are consistent with the enum
         variants established *on those paths* (the variant state at the starting edge, refined by the edge itself,
         is propagated forward and joined only with other paths that also start at `edges`).  Sound: a block is
@@ -429,7 +435,7 @@ class CFG:
 
         work = []
         for e in edges:
-            st = out_state(e)
+            st = _init.get(e.dst) if _init is not None else out_state(e)
             if st is None or e.dst in cut_nodes:
                 continue
             if add(e.dst, st):
